@@ -376,8 +376,8 @@ def judge(shape, fault, obs, before, after, base_steps=None, cc1_slots=None):
             bad = content_problem(shape, p, a[1])
             if bad:
                 devs.append(("output-wrong-content", "%s: %s" % (p, bad)))
-        if shape.mode == "E" and not shape.o:
-            for i in range(len(shape.kinds)):
+        if shape.to_stdout:
+            for i in [j for j, k in enumerate(shape.kinds) if k in M.C_KINDS]:
                 if M.sym(i).encode() not in obs["stdout"]:
                     devs.append(("output-wrong-content", "stdout lacks the text of input %d" % i))
                     break
